@@ -86,7 +86,7 @@ def _mk_cmp(op):
 
 
 def _log(x):
-    if isinstance(x, SymReal):
+    if isinstance(x, (SymReal, core.SymFP)):
         return x.log()
     if _is_sym(x):
         return SymReal.lift(x).log()
@@ -241,6 +241,24 @@ class SA(np.ndarray):
             for i in range(len(cells)):
                 cells[i] = ite(SymBool(k.t == i), value, cells[i])
             return
+        if isinstance(key, np.ndarray) and key.dtype == object and key.shape == self.shape:
+            # a[mask] = v with a symbolic boolean mask: cell-wise if-then-else for a scalar v; for an
+            # array v (consumed in order of the True cells) the mask is realised
+            kc = key.view(np.ndarray).reshape(-1)
+            if np.ndim(value) == 0:
+                cells = self.view(np.ndarray).reshape(-1)      # a view: writes go through
+                if cells.base is None and self.size:
+                    raise HarnessError('masked assignment on a non-contiguous symbolic array')
+                for i in range(len(cells)):
+                    m = kc[i]
+                    if isinstance(m, (bool, np.bool_)):
+                        if m:
+                            cells[i] = value
+                    else:
+                        cells[i] = ite(SymBool(bool_term(m)), value, cells[i])
+                return
+            mask = np.array([bool(c) for c in kc], dtype=bool).reshape(key.shape)
+            return super().__setitem__(mask, value)
         super().__setitem__(key, value)
 
     # -- methods numpy would route to C truthiness / numeric casts
